@@ -4,6 +4,9 @@ use crate::datamodel::DataArc;
 
 #[cfg(feature = "Debug_Serializer")]
 use crate::common::debug;
+#[cfg(rfsm_verif)]
+use crate::verif_seams::collections::HashMap;
+#[cfg(not(rfsm_verif))]
 use std::collections::HashMap;
 use std::io::Write;
 
